@@ -354,7 +354,9 @@ func c06LastRootAndOrder(c *core.Ctx) {
 	}
 	c.Floor("C06/last-root-set-only-after-success", 2)
 	if fn := anchorM(c, pkg, "AccountsDB", "RevertToSnapshot"); fn != nil {
-		isRevert := func(in ssa.Instruction, cc *ssa.CallCommon) bool { return cc.IsInvoke() && cc.Method.Name() == "Revert" }
+		isRevert := func(in ssa.Instruction, cc *ssa.CallCommon) bool {
+			return cc.IsInvoke() && cc.Method.Name() == "Revert"
+		}
 		// the undo step: in the loop of RevertToSnapshot itself, or in a helper the loop calls
 		host := fn
 		var rev ssa.Instruction
